@@ -216,7 +216,7 @@ func (tmp *tmpfile) link() error {
 	}
 
 	linkpath := filepath.Join(tmp.dir, linkname)
-	err = renameOver(linkpath, objPath)
+	err = tmp.renameIntoPlace(linkpath, objPath)
 	if err != nil {
 		os.Remove(linkpath)
 		return fmt.Errorf("rename tmpfile to %q: %w", objPath, err)
@@ -228,6 +228,23 @@ func (tmp *tmpfile) link() error {
 	}
 
 	return nil
+}
+
+// renameIntoPlace is renameOver, retried when the parent directory of dst
+// has vanished in the meantime: a concurrent delete of the last object
+// below it prunes the then empty directory that link() created a moment
+// ago.
+func (tmp *tmpfile) renameIntoPlace(src, dst string) error {
+	err := renameOver(src, dst)
+	for retries := 0; errors.Is(err, fs.ErrNotExist) && retries < 3; retries++ {
+		mkErr := backend.MkdirAll(filepath.Dir(dst), tmp.uid, tmp.gid,
+			tmp.needsChown, tmp.newDirPerm)
+		if mkErr != nil {
+			break
+		}
+		err = renameOver(src, dst)
+	}
+	return err
 }
 
 // renameOver moves src to dst, replacing an existing file atomically. A
@@ -262,7 +279,7 @@ func (tmp *tmpfile) fallbackLink() error {
 	}
 
 	objPath := filepath.Join(tmp.bucket, tmp.objname)
-	err = renameOver(tempname, objPath)
+	err = tmp.renameIntoPlace(tempname, objPath)
 	if err != nil {
 		// rename only works for files within the same filesystem
 		// if this fails fallback to copy
